@@ -50,7 +50,13 @@ def correspondence(rng, thorough):
         shape = tuple(int(x) for x in rng.integers(b, 8 + b, size=3))   # every axis holds at least one block
         a = rng.integers(-4, 5, size=shape).astype(np.float32)
         use_dask = bool(it % 2)
-        arr = da.from_array(a, chunks=tuple(max(1, s // 2) for s in shape)) if use_dask else a
+
+        def compose(s):
+            # a random composition of the axis length: chunk boundaries anywhere (also not multiples of b)
+            cuts = sorted({int(c) for c in rng.integers(1, s, size=int(rng.integers(0, 4)))}) if s > 1 else []
+            return tuple(np.diff([0] + cuts + [s]).tolist())
+        chunks = tuple(max(1, s // 2) for s in shape) if it % 4 == 1 else tuple(compose(s) for s in shape)
+        arr = da.from_array(a, chunks=chunks) if use_dask else a
         out = np.asarray(bin_image(arr, b))
         stats["dask"] += use_dask
         stats["remainder"] += any(s % b for s in shape)
